@@ -22,7 +22,8 @@ ObjOk(c, m, o) ==
   IF Scaled(c) THEN m.u.s = "??" \/ (m.u.dim = o.u.dim /\ NumOk(m.u.off, o.u.off) /\ PhysSeqOk(m.n, m.u.sc, o.n, o.u.sc))
   ELSE SeqOk(m.n, o.n) /\ UnitOk(m.u, o.u)
 \* the model does not predict a power whose exponent it cannot read (huge / non-dyadic floats)
-TSkip(s) == \/ s.c.f = "pow" /\ s.c.y \in Slots /\ \E j \in DOMAIN s.B[s.c.y].n : IsOpq(s.B[s.c.y].n[j])
+TSkip(s) == \/ s.c.op \in GOps      \* generic copying families: frame only (P1_NoMut), results are not transcribed
+            \/ s.c.f = "pow" /\ s.c.y \in Slots /\ \E j \in DOMAIN s.B[s.c.y].n : IsOpq(s.B[s.c.y].n[j])
             \* ... nor the coefficient path of multiply/divide when the out= object's OWN unit is spelled with a cancellable
             \* ratio (lb/la): `multiply(out, mul, out=out)` consults that unit again
             \/ IsInplace(s.c) /\ s.c.f \in {"mul", "div"} /\ s.B[Target(s.c)].u.s = "lb/la"
